@@ -151,12 +151,14 @@ def histories(seed, n):
     return hs
 
 
-def ctstep(d, sub, which, opts):
+def ctstep(d, sub, which, opts, rule_ids_map=None):
     """one build in its own process; returns the harness's JSON"""
     dd = os.path.join(d, sub) if sub else d
     req = dict(grammar_path=os.path.join(dd, "g.y"), grammar_out=os.path.join(dd, "g.y.rs"),
                lexer_path=os.path.join(dd, "l.l"), lexer_out=os.path.join(dd, "l.l.rs"), which=which,
                opts={k: v for k, v in opts.items() if v != "unset"})
+    if rule_ids_map is not None:
+        req["rule_ids_map"] = rule_ids_map
     rp = os.path.join(dd, "req.json")
     with open(rp, "w") as f:
         json.dump(req, f)
